@@ -300,7 +300,9 @@ def run_check(pid, tier, seed):
     pr = prove(pid, thorough=(tier == "thorough"))
     for f in pr["failed"]:
         broke.append({"kind": "proof", "what": f})
-    # 3. correspondence
+    # 3. correspondence (from here on the implementation's executed lines are recorded for the evidence)
+    from . import cov
+    lc = cov.LineCov(os.path.join(core.REPO, "AcraNetwork")).start()
     corr = {"n": 0, "diffs": [], "timeouts": [], "distinct_nontrivial": 0, "samples": []}
     lines = []
     budget = 900 if tier == "quick" else 4 * 3600
@@ -329,6 +331,11 @@ def run_check(pid, tier, seed):
             hung.append("the oracle search")
     except Exception as e:
         broke.append({"kind": "oracle", "what": "oracle harness error: %r" % (e,), "trace": traceback.format_exc()[-1500:]})
+    lc.stop()
+    try:
+        impl_cov = lc.report()
+    except Exception as e:
+        impl_cov = {"error": repr(e)}
     for h in hung:
         failures.append(Failure("watchdog", {"phase": h, "budget_s": budget},
                                 "an operation on the real code did not finish: %s exceeded its %d s watchdog" % (h, budget),
@@ -385,6 +392,7 @@ def run_check(pid, tier, seed):
             "traces_validated_against_impl": corr["n"],
             "correspondence": {"lines": corr["n"], "disagreements": len(corr["diffs"]), "impl_s": corr.get("impl_s"), "model_s": corr.get("model_s")},
             "input_distribution": corr.get("distribution", {}),
+            "impl_coverage": impl_cov,
             "oracle": {k: v for k, v in ctx.stats.items()},
             "known_findings_listed": [e["id"] for e in known if e.get("status") == "known"],
             "known_findings_reobserved": sorted(seen_known),
